@@ -629,7 +629,7 @@ fn run_pn(o: &Opts) {
         for i in 0..rng.below(5) { let pn = base + i * (1 + rng.below(3)); c.op(&format!("rcvd {}", pn), "hist"); largest = largest.max(pn + 1); }
         for _ in 0..(1 + rng.below(3)) {
             if c.dead { break; }
-            let jump = match rng.below(14) { 0 => 0, 1 => 1, 2 => 63, 3 => 64, 4 => 16383, 5 => 16385, 6 => 65535, 7 => 65536, 8 => 65537, 9 => 65538, 10 => 1 << 20, 11 => 1 << 24, 12 => (1 << 30) + 1, _ => (1u64 << 31) - 1 - rng.below(3) };
+            let jump = match rng.below(40) { 0..=3 => 0, 4..=9 => 1, 10..=13 => 63, 14..=16 => 64, 17..=19 => 16383, 20..=22 => 16385, 23..=25 => 65535, 26..=28 => 65536, 29..=31 => 65537, 32..=34 => 65538, 35 => 65539, 36 => 1 << 20, 37 => 1 << 24, 38 => (1 << 30) + 1, _ => (1u64 << 31) - 1 - rng.below(3) };
             let bits = if jump < 100 { *rng.pick(&[8u64, 16, 24, 32]) } else if jump < 30000 { *rng.pick(&[16u64, 24, 32]) } else if jump < (1 << 23) { *rng.pick(&[24u64, 32]) } else { 32 };
             let target = largest + jump;
             let trunc = target & ((1u64 << bits) - 1);
